@@ -75,6 +75,10 @@ structure E2EDom (K V P H M Pat : Type) where
   concrete failing input on the dumped automaton) -/
   windows : List Pat → List H := fun _ => []
   sHost : H → String := fun _ => "?"
+  /-- well-formedness hypotheses of the domain theorems, evaluated on every pattern and host of
+  the stream (port graphs: `LinksOK`, `tdom_pg_linksOKb_iff`) -/
+  wfPat : Pat → Bool := fun _ => true
+  wfHost : H → Bool := fun _ => true
 
 structure E2EOut where
   oracle : List String := []
@@ -120,6 +124,8 @@ def handleE2E {K V P H M Pat} [DecidableEq K] [DecidableEq V] [DecidableEq P]
     let naive ← pOpt (pList (pPair pNat dom.pMap))
     pure (many, naive)) hosts.length
   let mut out : E2EOut := {}
+  if !(pats.all dom.wfPat) || !(hosts.all dom.wfHost) then
+    out := { out with dis := out.dis ++ [s!"{dom.name}.wf a pattern or host violates the well-formedness hypothesis of the domain theorems"] }
   -- (a) pattern conversion
   let modelCvs := pats.map dom.convert
   let convOk := (modelCvs.zip cvs).all fun (m, i) =>
